@@ -335,365 +335,4 @@ deriving Repr, DecidableEq
 /-- `a = std::move(b)`: returns (a, b) after the assignment -/
 def Obj.moveAssign (_a b : Obj) : Obj × Obj := (b, ⟨none⟩)
 
-/-! ## Laws -/
-
-theorem prefix_split {p q A B : Bytes} (h : p ++ q = A ++ B) (_hq : q ≠ []) :
-    (∃ a, a ≠ [] ∧ p ++ a = A) ∨ (∃ c, p = A ++ c ∧ c ++ q = B) := by
-  rcases List.append_eq_append_iff.mp h with ⟨a, hA, hq'⟩ | ⟨c, hp, hB⟩
-  · by_cases ha : a = []
-    · subst ha; right; exact ⟨[], by simp [hA], by simpa using hq'⟩
-    · left; exact ⟨a, ha, hA.symm⟩
-  · right; exact ⟨c, hp, hB.symm⟩
-
-theorem readN_append (s rest : Bytes) : readN s.length (s ++ rest) = .ok s rest := by
-  simp [readN]
-
-theorem readN_prefix {s p q : Bytes} (h : p ++ q = s) (hq : q ≠ []) : readN s.length p = .error .eof := by
-  subst h
-  have : 0 < q.length := List.length_pos_iff.mpr hq
-  simp [readN]; omega
-
-/-- sequencing: a decoder that first runs a lawful codec and then continues on the rest -/
-theorem seq_prefix {α β : Type} {c : Codec α} {P : α → Prop} (h : Lawful c P) {v : α} (hv : P v)
-    {B p q : Bytes} (he : p ++ q = c.enc v ++ B) (hq : q ≠ []) (k : α → Bytes → Res β)
-    (hk : ∀ c', c' ++ q = B → k v c' = .error .eof) :
-    (c.dec p).bind k = .error .eof := by
-  rcases prefix_split he hq with ⟨a, ha, hpa⟩ | ⟨c', hpc, hc⟩
-  · rw [h.prefixFree v p a hv hpa ha]; rfl
-  · subst hpc; rw [h.roundtrip v c' hv]; exact hk c' hc
-
-/-! ### scalars -/
-
-theorem lawful_nil : Lawful nil (fun _ => True) where
-  roundtrip v rest _ := by simp [nil, checkType, getU8]
-  prefixFree v p q _ h hq := by
-    rcases p with _ | ⟨a, p⟩ <;> simp_all [nil, checkType, getU8]
-
-theorem lawful_bool : Lawful bool (fun _ => True) where
-  roundtrip v rest _ := by cases v <;> simp [bool, getU8] <;> decide
-  prefixFree v p q _ h hq := by
-    rcases p with _ | ⟨a, p⟩ <;> simp_all [bool, getU8]
-
-theorem lawful_scalar8 (tag : Nat) : Lawful (scalar8 tag) (fun _ => True) where
-  roundtrip v rest _ := by
-    simp [scalar8, checkType, getU8]
-  prefixFree v p q _ h hq := by
-    simp only [scalar8] at h
-    rcases p with _ | ⟨a, _ | ⟨b, _ | ⟨c, p⟩⟩⟩ <;> simp_all [scalar8, checkType, getU8]
-
-theorem lawful_scalar16 (tag : Nat) : Lawful (scalar16 tag) (fun _ => True) where
-  roundtrip v rest _ := by
-    have := v.toNat_lt
-    simp [scalar16, be16, checkType, getU8, getU16]
-    apply UInt16.toNat_inj.mp; simp; omega
-  prefixFree v p q _ h hq := by
-    simp only [scalar16, be16] at h
-    rcases p with _ | ⟨a, _ | ⟨b, _ | ⟨c, _ | ⟨d, p⟩⟩⟩⟩ <;> simp_all [scalar16, checkType, getU8, getU16]
-
-theorem lawful_scalar32 (tag : Nat) : Lawful (scalar32 tag) (fun _ => True) where
-  roundtrip v rest _ := by
-    have := v.toNat_lt
-    simp [scalar32, be32, checkType, getU8, getU32]
-    apply UInt32.toNat_inj.mp; simp; omega
-  prefixFree v p q _ h hq := by
-    simp only [scalar32, be32] at h
-    rcases p with _ | ⟨a, _ | ⟨b, _ | ⟨c, _ | ⟨d, _ | ⟨e, _ | ⟨f, p⟩⟩⟩⟩⟩⟩ <;>
-      simp_all [scalar32, checkType, getU8, getU32]
-
-theorem lawful_nat32 : Lawful nat32 (fun n => n < 4294967296) where
-  roundtrip v rest hv := by
-    have : v < 4294967296 := hv
-    simp [nat32, be32, checkType, getU8, getU32]; omega
-  prefixFree v p q _ h hq := by
-    simp only [nat32, be32] at h
-    rcases p with _ | ⟨a, _ | ⟨b, _ | ⟨c, _ | ⟨d, _ | ⟨e, _ | ⟨f, p⟩⟩⟩⟩⟩⟩ <;>
-      simp_all [nat32, checkType, getU8, getU32]
-
-theorem lawful_scalar64 (tag : Nat) : Lawful (scalar64 tag) (fun _ => True) where
-  roundtrip v rest _ := by
-    have := v.toNat_lt
-    simp [scalar64, be64, checkType, getU8, getU64]
-    apply UInt64.toNat_inj.mp; simp; omega
-  prefixFree v p q _ h hq := by
-    simp only [scalar64, be64] at h
-    rcases p with _ | ⟨a, _ | ⟨b, _ | ⟨c, _ | ⟨d, _ | ⟨e, _ | ⟨f, _ | ⟨g, _ | ⟨h', _ | ⟨i, _ | ⟨j, p⟩⟩⟩⟩⟩⟩⟩⟩⟩⟩ <;>
-      simp_all [scalar64, checkType, getU8, getU64]
-
-/-! ### length prefixes, str, bin -/
-
-theorem fixstr_bits : ∀ n, n < 32 → ((160 ||| (n &&& 31)) &&& 224 = 160 ∧ (160 ||| (n &&& 31)) &&& 31 = n) := by decide
-theorem fixarr_bits : ∀ n, n < 16 → ((144 ||| (n &&& 15)) &&& 240 = 144 ∧ (144 ||| (n &&& 15)) &&& 15 = n) := by decide
-theorem fixmap_bits : ∀ n, n < 16 → ((128 ||| (n &&& 15)) &&& 240 = 128 ∧ (128 ||| (n &&& 15)) &&& 15 = n) := by decide
-
-theorem lawful_strHdr : Lawful strHdr (fun n => n < 4294967296) where
-  roundtrip n rest hn := by
-    have hn' : n < 4294967296 := hn
-    simp only [strHdr, strHeader, decStrHeader]
-    split
-    · rename_i h; have := fixstr_bits n h; simp [getU8, this.1, this.2]
-    · split
-      · simp [getU8]; omega
-      · split
-        · simp [getU8, getU16, be16]; omega
-        · simp [getU8, getU32, be32]; omega
-  prefixFree n p q hn h hq := by
-    simp only [strHdr, strHeader] at h
-    simp only [strHdr, decStrHeader]
-    split at h
-    · rcases p with _ | ⟨a, p⟩ <;> simp_all [getU8]
-    · split at h
-      · rcases p with _ | ⟨a, _ | ⟨b, p⟩⟩ <;> simp_all [getU8]
-      · split at h
-        · rcases p with _ | ⟨a, _ | ⟨b, _ | ⟨c, p⟩⟩⟩ <;> simp_all [getU8, getU16, be16]
-        · rcases p with _ | ⟨a, _ | ⟨b, _ | ⟨c, _ | ⟨d, _ | ⟨e, p⟩⟩⟩⟩⟩ <;> simp_all [getU8, getU32, be32]
-
-theorem lawful_binHdr : Lawful binHdr (fun n => n < 4294967296) where
-  roundtrip n rest hn := by
-    have hn' : n < 4294967296 := hn
-    simp only [binHdr, binHeader, decBinHeader]
-    split
-    · simp [getU8]; omega
-    · split
-      · simp [getU8, getU16, be16]; omega
-      · simp [getU8, getU32, be32]; omega
-  prefixFree n p q hn h hq := by
-    simp only [binHdr, binHeader] at h
-    simp only [binHdr, decBinHeader]
-    split at h
-    · rcases p with _ | ⟨a, _ | ⟨b, p⟩⟩ <;> simp_all [getU8]
-    · split at h
-      · rcases p with _ | ⟨a, _ | ⟨b, _ | ⟨c, p⟩⟩⟩ <;> simp_all [getU8, getU16, be16]
-      · rcases p with _ | ⟨a, _ | ⟨b, _ | ⟨c, _ | ⟨d, _ | ⟨e, p⟩⟩⟩⟩⟩ <;> simp_all [getU8, getU32, be32]
-
-theorem lawful_arrHdr : Lawful arrHdr (fun n => n < 4294967296) where
-  roundtrip n rest hn := by
-    have hn' : n < 4294967296 := hn
-    simp only [arrHdr, arrHeader, decArrHeader]
-    split
-    · rename_i h; have := fixarr_bits n h; simp [getU8, this.1, this.2]
-    · split
-      · simp [getU8, getU16, be16]; omega
-      · simp [getU8, getU32, be32]; omega
-  prefixFree n p q hn h hq := by
-    simp only [arrHdr, arrHeader] at h
-    simp only [arrHdr, decArrHeader]
-    split at h
-    · rcases p with _ | ⟨a, p⟩ <;> simp_all [getU8]
-    · split at h
-      · rcases p with _ | ⟨a, _ | ⟨b, _ | ⟨c, p⟩⟩⟩ <;> simp_all [getU8, getU16, be16]
-      · rcases p with _ | ⟨a, _ | ⟨b, _ | ⟨c, _ | ⟨d, _ | ⟨e, p⟩⟩⟩⟩⟩ <;> simp_all [getU8, getU32, be32]
-
-theorem lawful_mapHdr : Lawful mapHdr (fun n => n < 4294967296) where
-  roundtrip n rest hn := by
-    have hn' : n < 4294967296 := hn
-    simp only [mapHdr, mapHeader, decMapHeader]
-    split
-    · rename_i h; have := fixmap_bits n h; simp [getU8, this.1, this.2]
-    · split
-      · simp [getU8, getU16, be16]; omega
-      · simp [getU8, getU32, be32]; omega
-  prefixFree n p q hn h hq := by
-    simp only [mapHdr, mapHeader] at h
-    simp only [mapHdr, decMapHeader]
-    split at h
-    · rcases p with _ | ⟨a, p⟩ <;> simp_all [getU8]
-    · split at h
-      · rcases p with _ | ⟨a, _ | ⟨b, _ | ⟨c, p⟩⟩⟩ <;> simp_all [getU8, getU16, be16]
-      · rcases p with _ | ⟨a, _ | ⟨b, _ | ⟨c, _ | ⟨d, _ | ⟨e, p⟩⟩⟩⟩⟩ <;> simp_all [getU8, getU32, be32]
-
-/-- header, then `n` raw bytes: the common shape of str and bin -/
-theorem lawful_payload {hd : Codec Nat} (hh : Lawful hd (fun n => n < 4294967296)) :
-    Lawful (⟨fun s => hd.enc s.length ++ s, fun bs => (hd.dec bs).bind fun n r => readN n r, fun s => s.length < 4294967296⟩ : Codec Bytes)
-      (fun s => s.length < 4294967296) where
-  roundtrip s rest hs := by
-    simp only [List.append_assoc]
-    rw [hh.roundtrip s.length _ hs]; simp [readN_append]
-  prefixFree s p q hs h hq := by
-    simp only at h ⊢
-    exact seq_prefix hh hs h hq _ (fun c' hc => readN_prefix hc hq)
-
-theorem lawful_str : Lawful str (fun s => s.length < 4294967296) := lawful_payload lawful_strHdr
-theorem lawful_bin : Lawful bin (fun s => s.length < 4294967296) := lawful_payload lawful_binHdr
-
-
-/-! ### ext -/
-
-def extHdr : Codec (Nat × Nat) where
-  enc x := extHeader x.1 x.2
-  dec bs := (decExtSize bs).bind fun n r => (getU8 r).bind fun ty r => .ok (n, ty) r
-  fits x := x.1 < 4294967296
-
-theorem pre2 {p q : Bytes} {a b : Nat} (h : p ++ q = [a, b]) (hq : q ≠ []) : p = [] ∨ p = [a] := by
-  rcases p with _ | ⟨x, _ | ⟨y, p⟩⟩
-  · simp
-  · simp at h; simp [h.1]
-  · simp at h; exact absurd h.2.2.2 hq
-theorem pre3 {p q : Bytes} {a b c : Nat} (h : p ++ q = [a, b, c]) (hq : q ≠ []) : p = [] ∨ p = [a] ∨ p = [a, b] := by
-  rcases p with _ | ⟨x, p⟩
-  · simp
-  · simp at h; rcases pre2 h.2 hq with rfl | rfl <;> simp [h.1]
-theorem pre4 {p q : Bytes} {a b c d : Nat} (h : p ++ q = [a, b, c, d]) (hq : q ≠ []) :
-    p = [] ∨ p = [a] ∨ p = [a, b] ∨ p = [a, b, c] := by
-  rcases p with _ | ⟨x, p⟩
-  · simp
-  · simp at h; rcases pre3 h.2 hq with rfl | rfl | rfl <;> simp [h.1]
-theorem pre5 {p q : Bytes} {a b c d e : Nat} (h : p ++ q = [a, b, c, d, e]) (hq : q ≠ []) :
-    p = [] ∨ p = [a] ∨ p = [a, b] ∨ p = [a, b, c] ∨ p = [a, b, c, d] := by
-  rcases p with _ | ⟨x, p⟩
-  · simp
-  · simp at h; rcases pre4 h.2 hq with rfl | rfl | rfl | rfl <;> simp [h.1]
-theorem pre6 {p q : Bytes} {a b c d e f : Nat} (h : p ++ q = [a, b, c, d, e, f]) (hq : q ≠ []) :
-    p = [] ∨ p = [a] ∨ p = [a, b] ∨ p = [a, b, c] ∨ p = [a, b, c, d] ∨ p = [a, b, c, d, e] := by
-  rcases p with _ | ⟨x, p⟩
-  · simp
-  · simp at h; rcases pre5 h.2 hq with rfl | rfl | rfl | rfl | rfl <;> simp [h.1]
-
-theorem lawful_extHdr : Lawful extHdr (fun x => x.1 < 4294967296) where
-  roundtrip x rest hn := by
-    obtain ⟨n, ty⟩ := x
-    have hn' : n < 4294967296 := hn
-    simp only [extHdr, extHeader, decExtSize]
-    split
-    · split
-      · rename_i h1 h2; simp [getU8, h2]
-      · split
-        · rename_i h1 _ h2; simp [getU8, h2]
-        · split
-          · rename_i h1 _ _ h2; simp [getU8, h2]
-          · split
-            · rename_i h1 _ _ _ h2; simp [getU8, h2]
-            · split
-              · rename_i h1 _ _ _ _ h2; simp [getU8, h2]
-              · simp [getU8]; omega
-    · split
-      · simp [getU8, getU16, be16]; omega
-      · simp [getU8, getU32, be32]; omega
-  prefixFree x p q hn h hq := by
-    obtain ⟨n, ty⟩ := x
-    simp only [extHdr, extHeader] at h
-    simp only [extHdr, decExtSize]
-    split at h
-    · split at h
-      · rcases pre2 h hq with rfl | rfl <;> simp [getU8]
-      · split at h
-        · rcases pre2 h hq with rfl | rfl <;> simp [getU8]
-        · split at h
-          · rcases pre2 h hq with rfl | rfl <;> simp [getU8]
-          · split at h
-            · rcases pre2 h hq with rfl | rfl <;> simp [getU8]
-            · split at h
-              · rcases pre2 h hq with rfl | rfl <;> simp [getU8]
-              · rcases pre3 h hq with rfl | rfl | rfl <;> simp [getU8]
-    · split at h
-      · simp only [be16, List.cons_append, List.nil_append] at h
-        rcases pre4 h hq with rfl | rfl | rfl | rfl <;> simp [getU8, getU16]
-      · simp only [be32, List.cons_append, List.nil_append] at h
-        rcases pre6 h hq with rfl | rfl | rfl | rfl | rfl | rfl <;> simp [getU8, getU32]
-
-theorem ext_dec_eq (bs : Bytes) :
-    ext.dec bs = (extHdr.dec bs).bind fun x r => (readN x.1 r).bind fun d r => .ok (UInt8.ofNat x.2, d) r := by
-  simp only [ext, extHdr]
-  cases decExtSize bs with
-  | error e => rfl
-  | ok n r => simp only [Res.bind_ok]; cases getU8 r <;> rfl
-
-theorem lawful_ext : Lawful ext (fun x => x.2.length < 4294967296) where
-  roundtrip x rest hx := by
-    obtain ⟨ty, d⟩ := x
-    rw [ext_dec_eq]
-    have : ext.enc (ty, d) ++ rest = extHdr.enc (d.length, ty.toNat) ++ (d ++ rest) := by simp [ext, extHdr]
-    rw [this, lawful_extHdr.roundtrip (d.length, ty.toNat) _ hx]
-    simp [readN_append]
-  prefixFree x p q hx h hq := by
-    obtain ⟨ty, d⟩ := x
-    rw [ext_dec_eq]
-    have h' : p ++ q = extHdr.enc (d.length, ty.toNat) ++ d := by simpa [ext, extHdr] using h
-    refine seq_prefix lawful_extHdr (v := (d.length, ty.toNat)) hx h' hq _ (fun c' hc => ?_)
-    simp [readN_prefix hc hq]
-
-/-! ### containers -/
-
-theorem decList_roundtrip {α : Type} {c : Codec α} {P : α → Prop} (h : Lawful c P) :
-    ∀ (l : List α) (rest : Bytes), (∀ x ∈ l, P x) → decList c l.length (encList c l ++ rest) = .ok l rest
-  | [], rest, _ => by simp [decList, encList]
-  | x :: xs, rest, hp => by
-    have hx : P x := hp x (by simp)
-    have hxs : ∀ y ∈ xs, P y := fun y hy => hp y (by simp [hy])
-    have ih := decList_roundtrip h xs rest hxs
-    simp only [encList] at ih
-    simp only [encList, List.flatMap_cons, List.length_cons, decList, List.append_assoc]
-    rw [h.roundtrip x _ hx]; simp [ih]
-
-theorem decList_prefix {α : Type} {c : Codec α} {P : α → Prop} (h : Lawful c P) :
-    ∀ (l : List α) (p q : Bytes), (∀ x ∈ l, P x) → p ++ q = encList c l → q ≠ [] →
-      decList c l.length p = .error .eof
-  | [], p, q, _, he, hq => by simp [encList] at he; exact absurd he.2 hq
-  | x :: xs, p, q, hp, he, hq => by
-    have hx : P x := hp x (by simp)
-    have hxs : ∀ y ∈ xs, P y := fun y hy => hp y (by simp [hy])
-    simp only [encList, List.flatMap_cons] at he
-    simp only [List.length_cons, decList]
-    refine seq_prefix h hx he hq _ (fun c' hc => ?_)
-    rw [decList_prefix h xs c' q hxs hc hq]; rfl
-
-/-- the values of `std::vector<T>` the laws cover: fewer than 2^32 elements, each covered -/
-def ArrOk {α : Type} (P : α → Prop) (l : List α) : Prop := l.length < 4294967296 ∧ ∀ x ∈ l, P x
-
-theorem lawful_arr {α : Type} {c : Codec α} {P : α → Prop} (h : Lawful c P) : Lawful (arr c) (ArrOk P) where
-  roundtrip l rest hl := by
-    simp only [arr, List.append_assoc]
-    rw [show arrHeader l.length = arrHdr.enc l.length from rfl, show decArrHeader = arrHdr.dec from rfl,
-      lawful_arrHdr.roundtrip l.length _ hl.1]
-    simpa using decList_roundtrip h l rest hl.2
-  prefixFree l p q hl he hq := by
-    simp only [arr] at he ⊢
-    exact seq_prefix lawful_arrHdr (v := l.length) hl.1 he hq _ (fun c' hc => decList_prefix h l c' q hl.2 hc hq)
-
-theorem lawful_pair {κ ν : Type} {k : Codec κ} {v : Codec ν} {Pk : κ → Prop} {Pv : ν → Prop}
-    (hk : Lawful k Pk) (hv : Lawful v Pv) : Lawful (pair k v) (fun p => Pk p.1 ∧ Pv p.2) where
-  roundtrip x rest hx := by
-    simp only [pair, List.append_assoc]
-    rw [hk.roundtrip _ _ hx.1]; simp [hv.roundtrip _ _ hx.2]
-  prefixFree x p q hx he hq := by
-    simp only [pair] at he ⊢
-    refine seq_prefix hk hx.1 he hq _ (fun c' hc => ?_)
-    rw [hv.prefixFree x.2 c' q hx.2 hc hq]; rfl
-
-theorem emplace_fold {κ ν : Type} [DecidableEq κ] :
-    ∀ (l acc : List (κ × ν)), ((acc ++ l).map Prod.fst).Nodup → l.foldl emplace acc = acc ++ l
-  | [], acc, _ => by simp
-  | x :: xs, acc, hnd => by
-    have hnot : ¬ (acc.any fun q => q.1 = x.1) = true := by
-      simp only [List.map_append, List.map_cons, List.nodup_append, List.nodup_cons] at hnd
-      intro hany
-      simp only [List.any_eq_true, decide_eq_true_eq] at hany
-      obtain ⟨q, hq, hqe⟩ := hany
-      exact hnd.2.2 q.1 (List.mem_map_of_mem hq) x.1 (by simp) hqe
-    have : emplace acc x = acc ++ [x] := by simp [emplace, hnot]
-    simp only [List.foldl_cons, this]
-    rw [emplace_fold xs (acc ++ [x]) (by simpa using hnd)]; simp
-
-theorem emplaceAll_nodup {κ ν : Type} [DecidableEq κ] (l : List (κ × ν)) (h : (l.map Prod.fst).Nodup) :
-    emplaceAll l = l := by
-  simpa [emplaceAll] using emplace_fold l [] (by simpa using h)
-
-/-- the values of `std::unordered_map<K, V>` the laws cover -/
-def MapOk {κ ν : Type} (Pk : κ → Prop) (Pv : ν → Prop) (l : List (κ × ν)) : Prop :=
-  l.length < 4294967296 ∧ (∀ x ∈ l, Pk x.1 ∧ Pv x.2) ∧ (l.map Prod.fst).Nodup
-
-theorem lawful_map {κ ν : Type} [DecidableEq κ] {k : Codec κ} {v : Codec ν} {Pk : κ → Prop} {Pv : ν → Prop}
-    (hk : Lawful k Pk) (hv : Lawful v Pv) : Lawful (map k v) (MapOk Pk Pv) where
-  roundtrip l rest hl := by
-    simp only [map, List.append_assoc]
-    rw [show mapHeader l.length = mapHdr.enc l.length from rfl, show decMapHeader = mapHdr.dec from rfl,
-      lawful_mapHdr.roundtrip l.length _ hl.1]
-    simp only [Res.bind_ok]
-    rw [decList_roundtrip (lawful_pair hk hv) l rest hl.2.1]
-    simp [emplaceAll_nodup l hl.2.2]
-  prefixFree l p q hl he hq := by
-    simp only [map] at he ⊢
-    refine seq_prefix lawful_mapHdr (v := l.length) hl.1 he hq _ (fun c' hc => ?_)
-    rw [decList_prefix (lawful_pair hk hv) l c' q hl.2.1 hc hq]; rfl
-
-
 end Primitiv.Msgpack
